@@ -141,10 +141,12 @@ _TYPE_POOL = [int, float, str, bool, list, list[int], list[str], dict[str, int],
 import numpy as np
 _NP_POOL = [np.arange(4), np.arange(4).reshape(2, 2), np.arange(4).reshape(4, 1), np.arange(4).astype("float64"),
             np.arange(4).astype("int32"), np.arange(8).astype("int32"), np.arange(4).view("float64"), np.zeros(4, dtype="int64"),
-            np.zeros((2, 2), dtype="int64"), np.array([0, 1, 2, 3]), np.arange(4)[::-1].copy()]
+            np.zeros((2, 2), dtype="int64"), np.array([0, 1, 2, 3]), np.arange(4)[::-1].copy(),
+            np.arange(4).reshape(2, 2).T, np.asfortranarray(np.arange(4).reshape(2, 2)), np.arange(8)[::2], np.arange(4)[::-1]]
 
 def _np_same(a, b):
-    return a.shape == b.shape and a.dtype == b.dtype and a.tobytes() == b.tobytes()
+    """same logical array: shape, element type and elements in index order (memory layout is not part of the value)"""
+    return a.shape == b.shape and a.dtype == b.dtype and a.tobytes(order="C") == b.tobytes(order="C")
 '''
 
 ANN = {
@@ -259,7 +261,7 @@ def build(tier, seed, exclude):
             return T.fail(lambda: "types %r and %r: hashes %s" % (_TYPE_POOL[i], _TYPE_POOL[j], "equal" if h1 == h2 else "differ"))
         return True
     """, timeout=to * 2)
-    np_pre = ["0 <= i < 11 and 0 <= j < 11"]
+    np_pre = ["0 <= i < 15 and 0 <= j < 15"]
     if "C08-array-shape-dtype" in exclude:
         np_pre.append("_NP_POOL[i].tobytes() != _NP_POOL[j].tobytes() or _NP_POOL[i].size != _NP_POOL[j].size or _np_same(_NP_POOL[i], _NP_POOL[j])")
     g.cond("h_numpy_pool", "i: int, j: int", np_pre, """
@@ -286,4 +288,4 @@ def build(tier, seed, exclude):
         return T.fail(err) if err else True
     """)
     return g.spec(bounds={"strings/bytes": "<= 2 (<= 1 inside containers)", "containers": "<= 2-3 elements", "nesting": "<= 2",
-                          "type pairs": len(pairs), "object attribute pool": 11, "type pool": 13, "array pool": 11})
+                          "type pairs": len(pairs), "object attribute pool": 11, "type pool": 13, "array pool": "15 (shapes, dtypes, views, Fortran order, negative strides)"})
